@@ -510,8 +510,8 @@ def _raise_empty():
 
 def _reduce(name, a, axis=None):
     f = {"logical_or": _orl, "logical_and": _andl, "bitwise_or": _orl, "bitwise_and": _andl,
-         "add": lambda v: functools.reduce(_BIN["add"], v, 0.0) if v else 0.0,
-         "multiply": lambda v: functools.reduce(_BIN["multiply"], v, 1.0) if v else 1.0,
+         "add": lambda v: functools.reduce(_BIN["add"], v) if v else 0.0,
+         "multiply": lambda v: functools.reduce(_BIN["multiply"], v) if v else 1.0,
          "maximum": lambda v: functools.reduce(s_max, v) if v else _raise_empty(),
          "minimum": lambda v: functools.reduce(s_min, v) if v else _raise_empty()}[name]
     return _reduce_axis(a, axis, f)
